@@ -9,8 +9,6 @@ func (g *Gen) tables(id string) {
 	g.symbolObligations(id)
 	g.sortObligations(id)
 }
-
-func (g *Gen) sortObligations(id string) {}
 func (g *Gen) thoroughExtras(id string, obls *[]*Obligation, work string) {}
 func runSelftest(args []string) int { return 2 }
 
